@@ -454,7 +454,42 @@ def h_unit_tables(case):
     return {'entries': entries, 'pairs': pairs}
 
 
+def h_mergemech(case):
+    """Replay one initial state of spec/mech/MergeMech.tla into the real merging code (advisory binding)."""
+    mech = case['mech']
+    src = 'abcdefgh'[:case['n']]
+    if mech == 'sweep':
+        import regex
+        from recognizers_number.number.extractors import BaseNumberExtractor, ReVal
+
+        class Ex(BaseNumberExtractor):
+            regexes = [ReVal(re=regex.compile(regex.escape(src[a:b + 1])), val='x') for a, b in case['input']]
+            _extract_type = 'x'
+        return {'out': [[r.start, r.start + r.length - 1] for r in Ex().extract(src)]}
+    if mech == 'tokens':
+        from recognizers_date_time.date_time.utilities import Token, merge_all_tokens
+        res = merge_all_tokens([Token(a, b) for a, b in case['input']], src, 'x')
+        return {'out': [[r.start, r.start + r.length] for r in res]}
+    from recognizers_text.extractor import ExtractResult
+    from recognizers_date_time.date_time.base_merged import BaseMergedExtractor
+    from recognizers_date_time.date_time.english.merged_extractor_config import EnglishMergedExtractorConfiguration
+    from recognizers_date_time.date_time.utilities import DateTimeOptions
+    global _MERGED
+    try:
+        _MERGED
+    except NameError:
+        _MERGED = BaseMergedExtractor(EnglishMergedExtractorConfiguration(), DateTimeOptions.NONE)
+
+    def er(a, b):
+        x = ExtractResult()
+        x.start, x.length, x.text, x.type = a, b - a + 1, src[a:b + 1], 'x'
+        return x
+    out = _MERGED.add_to([er(a, b) for a, b in case['input'][0]], [er(a, b) for a, b in case['input'][1]], src)
+    return {'out': [[r.start, r.start + r.length - 1] for r in out]}
+
+
 _HANDLERS = {
+    'mergemech': h_mergemech,
     'unit_tables': h_unit_tables,
     'purity_scenario': h_purity_scenario,
     'registered': h_registered,
